@@ -84,6 +84,9 @@ func (b *Bloom) Add(data []byte) {
 func (b *Bloom) MayContain(data []byte) bool {
 	res := getBitsIndexes(b, data)
 
+	b.mutex.Lock()
+	defer b.mutex.Unlock()
+
 	for i := range res {
 		pos, bitMask := getBytePositionAndBitMask(res[i])
 
@@ -96,6 +99,9 @@ func (b *Bloom) MayContain(data []byte) bool {
 
 // Clear resets the bits of the bloom filter
 func (b *Bloom) Clear() {
+	b.mutex.Lock()
+	defer b.mutex.Unlock()
+
 	for i := 0; i < len(b.filter); i++ {
 		b.filter[i] = 0
 	}
